@@ -32,6 +32,7 @@ type pProbe struct {
 	Ins     []inSpec `json:"ins"`
 	Busy    int64    `json:"busy,omitempty"` // virtual ns spent in every reconcile
 	Late    bool     `json:"late,omitempty"` // registered after Run
+	Defer   bool     `json:"defer,omitempty"` // registered by a "register" step, concurrently with the following writes
 	Fail    bool     `json:"fail,omitempty"` // every reconcile fails (C16: must not affect the others)
 }
 
@@ -40,16 +41,37 @@ type pWrite struct {
 	Typ string `json:"typ,omitempty"`
 	ID  string `json:"id,omitempty"`
 	D   int64  `json:"d,omitempty"`
-	// addinput: dynamic UpdateInputs of an r-probe
+	// addinput / delinput: dynamic UpdateInputs of an r-probe (delinput drops the input at index N)
 	Probe string  `json:"probe,omitempty"`
 	In    *inSpec `json:"in,omitempty"`
+	N     int     `json:"n,omitempty"`
 }
 
 type pScenario struct {
+	SlowWatch int64 `json:"slow_watch,omitempty"` // virtual ns every watch set up after Run started takes to establish
 	Probes []pProbe `json:"probes"`
 	Cached bool     `json:"cached,omitempty"` // kind n1/T is cached
 	Pre    []pWrite `json:"pre,omitempty"`    // before Run
 	Steps  []pWrite `json:"steps"`
+}
+
+// slowWatchState delays the establishment of kind watches (a slow or remote state).
+type slowWatchState struct {
+	state.State
+	delay   time.Duration
+	running *atomic.Bool
+}
+
+func (s *slowWatchState) WatchKindAggregated(ctx context.Context, kind resource.Kind, ch chan<- []state.Event, opts ...state.WatchKindOption) error {
+	if s.delay > 0 && s.running.Load() {
+		select {
+		case <-ctx.Done():
+			return ctx.Err()
+		case <-time.After(s.delay):
+		}
+	}
+
+	return s.State.WatchKindAggregated(ctx, kind, ch, opts...)
 }
 
 // shared bookkeeping: one global sequence over commits and reconcile starts
@@ -221,7 +243,9 @@ func runPipeScenario(t *testing.T, sc pScenario, table bool) (res pResult) {
 			opts = append(opts, options.WithCachedResource("n1", "T"))
 		}
 
-		rt, err := cruntime.NewRuntime(st, zap.NewNop(), opts...)
+		var running atomic.Bool
+
+		rt, err := cruntime.NewRuntime(&slowWatchState{State: st, delay: time.Duration(sc.SlowWatch), running: &running}, zap.NewNop(), opts...)
 		if err != nil {
 			t.Fatal(err)
 		}
@@ -334,7 +358,7 @@ func runPipeScenario(t *testing.T, sc pScenario, table bool) (res pResult) {
 		}
 
 		for _, p := range sc.Probes {
-			if !p.Late {
+			if !p.Late && !p.Defer {
 				register(p)
 			}
 		}
@@ -344,12 +368,15 @@ func runPipeScenario(t *testing.T, sc pScenario, table bool) (res pResult) {
 		go func() { done <- rt.Run(ctx) }()
 
 		synctest.Wait()
+		running.Store(true)
 
 		for _, p := range sc.Probes {
-			if p.Late {
+			if p.Late && !p.Defer {
 				register(p)
 			}
 		}
+
+		registered := map[string]bool{}
 
 		probeByName := map[string]*pProbe{}
 		for i := range sc.Probes {
@@ -365,6 +392,10 @@ func runPipeScenario(t *testing.T, sc pScenario, table bool) (res pResult) {
 			defer book.mu.Unlock()
 
 			for _, p := range sc.Probes {
+				if p.Defer && !registered[p.Name] {
+					continue
+				}
+
 				for key, v := range latest {
 					typ, id := splitKey(key)
 
@@ -407,6 +438,32 @@ func runPipeScenario(t *testing.T, sc pScenario, table bool) (res pResult) {
 				time.Sleep(time.Duration(w.D))
 			case "quiesce":
 				quiesce(fmt.Sprintf("step %d", i))
+			case "delinput":
+				pr, ok := rprobes[w.Probe]
+				if !ok {
+					continue
+				}
+
+				pr.mu.Lock()
+				r := pr.rt
+
+				if r == nil || len(pr.ins) < 2 || w.N >= len(pr.ins) {
+					pr.mu.Unlock()
+
+					continue
+				}
+
+				pr.ins = append(append([]controller.Input(nil), pr.ins[:w.N]...), pr.ins[w.N+1:]...)
+				ins := append([]controller.Input(nil), pr.ins...)
+				pr.mu.Unlock()
+
+				if err := r.UpdateInputs(ins); err != nil {
+					t.Fatalf("UpdateInputs: %v", err)
+				}
+
+				pi := probeByName[w.Probe]
+				pi.Ins = append(append([]inSpec(nil), pi.Ins[:w.N]...), pi.Ins[w.N+1:]...)
+				res.flags["dynamic_input_removed"] = true
 			case "addinput":
 				pr, ok := rprobes[w.Probe]
 				if !ok {
@@ -622,13 +679,15 @@ func genPipeWrites(r *rng, n int) []pWrite {
 
 func TestC05(t *testing.T) {
 	dir := outDir(t)
-	rep := newReport("C05", "black-box: a real Runtime on inmem under synctest with 1-3 probe Controllers/QControllers (weak/strong/destroy-ready/primary/mapped/mapped-destroy-ready inputs, by kind and by id, busy times 0..2s, registered before or after Run, cached kind or not, dynamic UpdateInputs), "+
+	rep := newReport("C05", "black-box: a real Runtime on inmem under synctest with 1-3 probe Controllers/QControllers (weak/strong/destroy-ready/primary/mapped/mapped-destroy-ready inputs, by kind and by id, busy times 0..2s, registered before or after Run, cached kind or not, dynamic UpdateInputs), plus a real-time phase (outside synctest) registering a controller with slow watch set-up concurrently with a burst on several keys, "+
 		"random write histories with bursts on one key and pre-existing resources; at every quiescence (all virtual timers elapsed, all goroutines blocked) the monitor requires that each controller started the required reconcile after the latest change of every resource it must be woken for (global sequence numbers); "+
 		"trigger table: isolated writes, observed wake-ups / queue jobs per controller compared with the model's r_trigger / q_jobs; non-trivial = pre-existing contents, late registration, busy controller or dynamic input; distinct by scenario")
 
 	type c05Case struct {
-		Kind string    `json:"kind"` // run | table
+		Kind string    `json:"kind"` // run | table | regburst
 		Sc   pScenario `json:"sc"`
+		N    int       `json:"n,omitempty"` // regburst: keys in the burst
+		Q    bool      `json:"q,omitempty"` // regburst: the late controller is a QController
 	}
 
 	var cases []c05Case
@@ -691,8 +750,26 @@ func TestC05(t *testing.T) {
 				}
 			}
 
+			if r.chance(1, 3) {
+				// drop one of several inputs of a running controller (by-kind and by-id inputs on one kind included)
+				for _, p := range sc.Probes {
+					if p.Flavour == "r" && len(p.Ins) >= 2 && !p.Late {
+						at := r.intn(len(sc.Steps))
+						sc.Steps = append(sc.Steps[:at:at], append([]pWrite{{Op: "quiesce"}, {Op: "delinput", Probe: p.Name, N: r.intn(len(p.Ins))}}, sc.Steps[at:]...)...)
+
+						break
+					}
+				}
+			}
+
 			cases = append(cases, c05Case{Kind: "run", Sc: sc})
 		}
+
+		// corpus: by-kind and by-id input on the same kind, the by-id one is dropped later
+		cases = append(cases, c05Case{Kind: "run", Sc: pScenario{
+			Probes: []pProbe{{Name: "c0", Flavour: "r", Ins: []inSpec{{NS: "n1", Typ: "T", Kind: 0}, {NS: "n1", Typ: "T", ID: sp("a"), Kind: 1}}}},
+			Steps: []pWrite{{Op: "create", Typ: "T", ID: "a"}, {Op: "quiesce"}, {Op: "delinput", Probe: "c0", N: 1}, {Op: "quiesce"}, {Op: "create", Typ: "T", ID: "b"}, {Op: "touch", Typ: "T", ID: "a"}},
+		}})
 
 		for range tier(120, 3000) {
 			sc := pScenario{Probes: genPipeProbes(r)}
@@ -703,6 +780,11 @@ func TestC05(t *testing.T) {
 			sc.Steps = genPipeWrites(r, 10+r.intn(15))
 			cases = append(cases, c05Case{Kind: "table", Sc: sc})
 		}
+
+		// real-time phase: registration of a controller with slow watch set-up concurrent with a burst on several keys
+		for n := range tier(16, 200) {
+			cases = append(cases, c05Case{Kind: "regburst", Sc: pScenario{SlowWatch: int64(pick(r, []time.Duration{15, 30, 60}) * time.Millisecond)}, N: 2 + n%4, Q: n%2 == 0})
+		}
 	}
 
 	tf := newCoqFile("C05_trigger_table", []string{"Store", "DepDB", "Pipeline", "PipelineCheck"}, "trow", "trigger_mismatches")
@@ -710,6 +792,18 @@ func TestC05(t *testing.T) {
 	var jl []any
 
 	for i, c := range cases {
+		if c.Kind == "regburst" {
+			key, _ := json.Marshal(c)
+			rep.count(string(key), true)
+			rep.hit(c.Kind)
+
+			for _, p := range runRegistrationBurst(t, time.Duration(c.Sc.SlowWatch), c.N, c.Q) {
+				rep.violateKey(i, "lost-wakeup:registration-burst", p, map[string]any{"case": c})
+			}
+
+			continue
+		}
+
 		res := runPipeScenario(t, c.Sc, c.Kind == "table")
 
 		nontrivial := len(c.Sc.Pre) > 0 || res.flags["dynamic_input"]
@@ -770,4 +864,100 @@ func lostWakeupKey(sc pScenario, problem string) string {
 	}
 
 	return "lost-wakeup"
+}
+
+// runRegistrationBurst runs OUTSIDE synctest (a goroutine blocked on the runtime's controller mutex is not durably
+// blocked, so a bubble could neither advance time nor reach quiescence): a QController with per-key reconciles is
+// running, a second controller whose two fresh kinds take slowWatch to set up is registered concurrently with a
+// burst of writes on several keys, then everything goes quiet.  Returns the keys never reconciled after their
+// latest change within the grace period.
+func runRegistrationBurst(t *testing.T, slowWatch time.Duration, nKeys int, qSecond bool) (problems []string) {
+	ctx, cancel := context.WithCancel(context.Background())
+	defer cancel()
+
+	st := state.WrapCore(namespaced.NewState(inmem.Build))
+	book := &pBook{lastStart: map[string]map[string]int64{}, starts: map[string][]string{}}
+
+	var running atomic.Bool
+
+	rt, err := cruntime.NewRuntime(&slowWatchState{State: st, delay: slowWatch, running: &running}, zap.NewNop())
+	if err != nil {
+		t.Fatal(err)
+	}
+
+	if err := rt.RegisterQController(&pipeProbeQ{name: "c0", ins: []controller.Input{{Namespace: "n1", Type: "T", Kind: controller.InputQPrimary}}, book: book}); err != nil {
+		t.Fatal(err)
+	}
+
+	done := make(chan error, 1)
+
+	go func() { done <- rt.Run(ctx) }()
+
+	time.Sleep(20 * time.Millisecond)
+	running.Store(true)
+
+	regDone := make(chan error, 1)
+
+	go func() {
+		if qSecond {
+			regDone <- rt.RegisterQController(&pipeProbeQ{name: "dz", ins: []controller.Input{
+				{Namespace: "n1", Type: "W1", Kind: controller.InputQPrimary}, {Namespace: "n1", Type: "W2", Kind: controller.InputQMapped},
+			}, book: book})
+		} else {
+			regDone <- rt.RegisterController(&pipeProbeR{name: "dz", ins: []controller.Input{
+				{Namespace: "n1", Type: "W1", Kind: controller.InputWeak}, {Namespace: "n1", Type: "W2", Kind: controller.InputWeak},
+			}, book: book})
+		}
+	}()
+
+	time.Sleep(slowWatch / 3)
+
+	latest := map[string]int64{}
+
+	for i := range nKeys {
+		id := fmt.Sprintf("k%d", i)
+
+		if err := st.Create(ctx, newRes("n1", "T", id, "p0")); err != nil {
+			t.Fatal(err)
+		}
+
+		latest["T/"+id] = book.seq.Add(1)
+	}
+
+	if err := <-regDone; err != nil {
+		t.Fatal(err)
+	}
+
+	deadline := time.Now().Add(8 * time.Second)
+
+	for {
+		missing := []string{}
+
+		book.mu.Lock()
+		for k, s := range latest {
+			if book.lastStart["c0"][k] <= s {
+				missing = append(missing, k)
+			}
+		}
+		book.mu.Unlock()
+
+		if len(missing) == 0 {
+			break
+		}
+
+		if time.Now().After(deadline) {
+			sort.Strings(missing)
+			problems = append(problems, fmt.Sprintf("lost-wakeup: q controller \"c0\" (primary n1/T) never reconciled %v after their creation although the system went quiet "+
+				"(a controller with two fresh kinds was being registered, watch set-up %v, while %d keys were created)", missing, slowWatch, nKeys))
+
+			break
+		}
+
+		time.Sleep(10 * time.Millisecond)
+	}
+
+	cancel()
+	<-done
+
+	return problems
 }
